@@ -67,6 +67,30 @@ def builtins(api):
         'Definition target_keys : list string := %s.\n' % cstrs(keys)
 
 
+def external_attrs(api):
+    """every attribute of the built-in types' external-type models, per generator, as strings"""
+    rows = []
+    for t in api.internal_types:
+        gens = []
+        for g in ('cpp', 'java', 'jni', 'objc', 'objcpp', 'cppcli'):
+            m = getattr(t, g, None)
+            if m is None:
+                continue
+            d = m.model_dump(mode='json') if hasattr(m, 'model_dump') else dict(m)
+            attrs = []
+            for k in sorted(d):
+                v = d[k]
+                if isinstance(v, bool):
+                    v = 'true' if v else 'false'
+                elif v is None:
+                    v = ''
+                attrs.append('(%s, %s)' % (cstr(k), cstr(str(v))))
+            gens.append('(%s, %s)' % (cstr(g), clist(attrs)))
+        rows.append('(%s, %s)' % (cstr(str(t.name)), clist(gens)))
+    return HEADER + '(* built-in type -> generator -> attribute -> value (external_types.py tables) *)\n' \
+        'Definition builtin_attrs : list (string * list (string * list (string * string))) :=\n  %s.\n' % clist(rows)
+
+
 def main(outdir):
     os.makedirs(outdir, exist_ok=True)
     from pydjinni import API
@@ -74,6 +98,7 @@ def main(outdir):
     write_if_changed(os.path.join(outdir, 'TargetTable.v'), target_table(api))
     write_if_changed(os.path.join(outdir, 'ReturnCodes.v'), return_codes())
     write_if_changed(os.path.join(outdir, 'Builtins.v'), builtins(api))
+    write_if_changed(os.path.join(outdir, 'ExternalTypes.v'), external_attrs(api))
     print('tables ok')
 
 
@@ -82,7 +107,7 @@ if __name__ == '__main__':
         main(sys.argv[1])
     except Exception:
         # fail closed: remove outputs so everything that depends on them stops building
-        for f in ('TargetTable.v', 'ReturnCodes.v', 'Builtins.v'):
+        for f in ('TargetTable.v', 'ReturnCodes.v', 'Builtins.v', 'ExternalTypes.v'):
             p = os.path.join(sys.argv[1], f)
             if os.path.exists(p):
                 os.unlink(p)
